@@ -815,6 +815,12 @@ func allDecoders() []*decoder {
 	// ---- Leios ledger types ----
 	add(dec[lcommon.LeiosEndorserBlock]("cbor.Decode(*lcommon.LeiosEndorserBlock)", true,
 		seed{"eb-array", enc(A(M(B(hash32), U(300), B(pat(32, 4)), U(20))))}, seed{"eb-map", enc(M(B(hash32), U(300), B(pat(32, 4)), U(20)))}))
+	add(&decoder{name: "lcommon.(*LeiosEndorserBlock).UnmarshalCBOR(direct)", cheap: true,
+		seeds: []seed{{"eb-array", enc(A(M(B(hash32), U(300), B(pat(32, 4)), U(20))))}, {"eb-map", enc(M(B(hash32), U(300), B(pat(32, 4)), U(20)))}},
+		fn: func(b []byte) error {
+			var v lcommon.LeiosEndorserBlock
+			return v.UnmarshalCBOR(b)
+		}})
 	add(dec[lcommon.LeiosVote]("cbor.Decode(*lcommon.LeiosVote)", true, seed{"vote", enc(leiosVote())}))
 	add(dec[lcommon.LeiosEbCertificate]("cbor.Decode(*lcommon.LeiosEbCertificate)", true,
 		seed{"ebcert", enc(A(U(100), B(hash32), B([]byte{0xff, 0x01}), B(pat(48, 1))))}))
@@ -1027,12 +1033,10 @@ func allDecoders() []*decoder {
 		return nil
 	}})
 	sweep := map[string]bool{
-		"cbor.Decode(*cbor.Value)": true, "cbor.Decode(*cbor.LazyValue)+Decode": true, "cbor.Decode(*any)": true,
-		"cbor.ParseDiagnostic+Format": true, "cbor.DecodeIdFromList": true, "cbor.ListLength": true, "cbor.StreamDecoder": true,
-		"cbor.Decode(*pcommon.Point)": true, "cbor.Decode(*pcommon.Tip)": true, "protocol.NewVersionDataNtN13andUpFromCbor": true,
+		"cbor.Decode(*cbor.Value)": true, "cbor.Decode(*any)": true, "cbor.ParseDiagnostic+Format": true,
+		"cbor.DecodeIdFromList": true, "cbor.Decode(*pcommon.Point)": true, "protocol.NewVersionDataNtN13andUpFromCbor": true,
 		"lcommon.NewAddressFromBytes": true, "lcommon.NewAddress(string)": true, "ledger.NewTransactionOutputFromCbor": true,
-		"lcommon.DecodeMetadatumRaw": true, "cbor.Decode(*lcommon.LeiosEndorserBlock)": true, "chainsync.NewMsgFromCborNtN:2": true,
-		"handshake.NewMsgFromCbor:0": true, "cbor.Decode(*peersharing.PeerAddress)": true,
+		"lcommon.DecodeMetadatumRaw": true, "lcommon.(*LeiosEndorserBlock).UnmarshalCBOR(direct)": true,
 	}
 	for _, d := range ds {
 		d.sweep3 = sweep[d.name]
